@@ -138,7 +138,8 @@ def classify(M, cls, op):
     if name == "relabel_atoms":
         m = {k: v for k, v in a[0]}
         img = [m.get(x, x) for x in A]
-        return "ok" if len(set(img)) == len(img) else "open"
+        # a mapping that sends two atoms to one id is not a renaming: such requests are never issued ("skip")
+        return "ok" if len(set(img)) == len(img) else "skip"
     raise ValueError(name)
 
 
